@@ -155,6 +155,45 @@ theorem proj_of_empty_basis (A : Mat K m 0) (G : Mat K 0 0) :
   funext i j
   simp [msub]
 
+/-- R12 (order of listing): the subspace does not depend on the order in which the basis
+    vectors are listed — permuting the columns of `A` by any permutation `σ` leaves the
+    projection matrix unchanged -/
+theorem proj_column_order_invariant (A : Mat K m k) (G G' : Mat K k k) (σ : Equiv.Perm (Fin k))
+    (hG : matMul G (gram A) = eye) (hG' : matMul G' (gram (fun i j => A i (σ j))) = eye) :
+    projWith G' (fun i j => A i (σ j)) = projWith G A := by
+  have e : (fun i j => A i (σ j)) = matMul A (fun l j => if l = σ j then (1 : K) else 0) := by
+    funext i j
+    simp only [matMul, sumFin_eq, mul_ite, mul_one, mul_zero, Finset.sum_ite_eq', Finset.mem_univ, if_true]
+  have hT : matMul (fun l j => if l = σ j then (1 : K) else 0) (fun l j => if j = σ l then (1 : K) else 0)
+      = (eye : Mat K k k) := by
+    funext i j
+    simp only [matMul, sumFin_eq, eye]
+    rw [Finset.sum_eq_single (σ.symm i)]
+    · simp only [Equiv.apply_symm_apply, if_true, one_mul]
+      by_cases h : i = j
+      · simp [h]
+      · have : ¬ j = i := fun e => h e.symm
+        simp [h, this]
+    · intro l _ hl
+      have : ¬ i = σ l := fun e => hl (by rw [e, Equiv.symm_apply_apply])
+      simp [this]
+    · intro h; exact absurd (Finset.mem_univ _) h
+  rw [e] at hG' ⊢
+  exact proj_basis_invariant A _ _ G G' hT hG hG'
+
+/-- R8 (equivalent entry points): `Projection.project` / `oProject` / `reflect` are the static
+    projection matrices applied to `M`: `reflect M = M − 2 P M = P⊥ M − P M` -/
+theorem projection_methods_are_static_results (A : Mat K m k) (G : Mat K k k) (M : Mat K m c) :
+    project (projWith G A) M = matMul (projWith G A) M ∧
+    project (oprojWith G A) M = msub M (matMul (projWith G A) M) ∧
+    reflect (projWith G A) M = msub (project (oprojWith G A) M) (project (projWith G A) M) := by
+  refine ⟨rfl, ?_, ?_⟩
+  · to_matrix
+    rw [Matrix.sub_mul, Matrix.one_mul]
+  · to_matrix
+    rw [Matrix.sub_mul, Matrix.sub_mul, Matrix.one_mul, Matrix.smul_mul, two_smul]
+    abel
+
 end projection
 
 section chordal
@@ -578,6 +617,14 @@ theorem gpcm_dead_dimensions {K : Type} [CommRing K] [StarRing K] {m c : Nat} (U
     matMul (cT U) (gpcm U S VH k hk) r j = 0 :=
   Pf.gpcm_dead U S VH k hk hU r j hr
 
+/-- R8 (equivalent entry points): `peig(A, n)` is `leig(A, ncols)` reversed and cut to `n`
+    (same kernel results), for every `argsort` result of the right length -/
+theorem peig_is_leig_reversed (c n : Nat) (perm : List Nat) (hlen : perm.length = c) (hn : n ≤ c) :
+    leigIdx c c perm = .ok perm ∧ peigIdx c n perm = .ok (perm.reverse.take n) := by
+  refine ⟨?_, ?_⟩
+  · simp [leigIdx, ← hlen]
+  · simp [peigIdx, Nat.not_lt.mpr hn]
+
 end selectors
 
 section conversions
@@ -640,6 +687,13 @@ theorem ebn0_is_snr_per_bit (snr b : ℝ) (hs : 0 < snr) (hb : 0 < b) :
     snrToEbN0 (linear2dB snr) b = linear2dB (snr / b) := by
   show 10 * Real.logb 10 snr - 10 * Real.logb 10 b = 10 * Real.logb 10 (snr / b)
   rw [Real.logb_div hs.ne' hb.ne']; ring
+
+/-- R8 (equivalent entry points): the dBm functions are the dB functions with a factor 1000,
+    and the Eb/N0 conversions are the SNR shifted by `linear2dB(bits)` — by definition -/
+theorem conversion_entry_points_agree (x y b : ℝ) :
+    linear2dBm x = linear2dB (x * 1000) ∧ dBm2Linear y = dB2Linear y / 1000 ∧
+    snrToEbN0 y b = y - linear2dB b ∧ ebN0ToSnr y b = y + linear2dB b :=
+  ⟨rfl, rfl, rfl, rfl⟩
 
 end conversions
 
